@@ -628,6 +628,62 @@ func c13ScatterGather(id string, n, capacity int, seed int64) core.Scenario {
 	}}
 }
 
+// c13ReusedAsk: a polling client keeps ONE ask object and sends it again with AskChannel whenever it wants a fresh
+// answer; every one of those requests gets the reply made for it (the reply counter of the actor tells them apart),
+// one-shot asks of other clients in between are served as well.
+func c13ReusedAsk(id string, seed int64) core.Scenario {
+	return core.Scenario{ID: id, Class: "Ask.reuse", Run: func(c *core.Ctx) {
+		c.Eval(1)
+		c.Distinct(id)
+		type rAsk = fpgo.AskDef[interface{}, int]
+		served := 0
+		actor := fpgo.Actor.New(func(self *fpgo.ActorDef[interface{}], m interface{}) {
+			if a, ok := m.(*rAsk); ok {
+				served++
+				a.Reply(a.Message.(int)*1000 + served)
+			}
+		})
+		defer actor.Close()
+		var poll *rAsk
+		if seed%2 == 0 {
+			poll = fpgo.AskNewGenerics[interface{}, int](7)
+		} else {
+			poll = fpgo.AskNewByOptionsGenerics[interface{}, int](7, make(chan int, 1))
+		}
+		rep := map[string]any{"scenario": id, "caller_supplied_channel": seed%2 == 1}
+		expectServed := 0
+		for round := 1; round <= 6; round++ {
+			ch := poll.AskChannel(actor)
+			expectServed++
+			got := make(chan int, 1)
+			go func() { got <- <-ch }()
+			done := make(chan struct{})
+			var v int
+			go func() { v = <-got; close(done) }()
+			verdict, dump := core.AwaitOrStuck(done, 2*time.Second, 60*time.Second, director.Get().Total)
+			if verdict == "stuck" {
+				rep["goroutines"] = core.RepoGoroutineSummary(dump)
+				c.Violationf("reused-ask:no-reply", rep, "round %d: the same ask object sent again with AskChannel never receives the reply the actor made for it", round)
+				return
+			} else if verdict != "done" {
+				c.Inconclusive("watchdog in " + id)
+				return
+			}
+			if v != 7000+expectServed {
+				c.Violationf("reused-ask:wrong-reply", rep, "round %d: the re-sent ask received %d, want %d", round, v, 7000+expectServed)
+				return
+			}
+			// a one-shot ask of another client in between
+			ov, err := fpgo.AskNewGenerics[interface{}, int](1).AskOnceWithTimeout(actor, 30*time.Second)
+			expectServed++
+			if err != nil || ov != 1000+expectServed {
+				c.Violationf("reused-ask:other-client", rep, "round %d: a one-shot ask between two uses of the polling ask returned (%d, %v), want %d", round, ov, err, 1000+expectServed)
+				return
+			}
+		}
+	}}
+}
+
 func c13Scenarios(c *core.Ctx, race bool) []core.Scenario {
 	var out []core.Scenario
 	for i := 0; i < c.Pick(2, 6); i++ {
@@ -635,6 +691,7 @@ func c13Scenarios(c *core.Ctx, race bool) []core.Scenario {
 			break
 		}
 		out = append(out, c13PreparedAsk(fmt.Sprintf("prepared-ask-%d-race%v", i, race), c.Seed+int64(i)))
+		out = append(out, c13ReusedAsk(fmt.Sprintf("reused-ask-%d-race%v", i, race), c.Seed+int64(i)))
 	}
 	for i := 0; i < c.Pick(2, 6); i++ {
 		if race && i > 0 {
